@@ -285,3 +285,19 @@ M("C11", "donor-index-edited", TB, "            if not options:\n               
 M("C11", "new-typechecking-only-use", "geneticengine/grammar/utils.py", "def is_builtin_class_instance(obj):\n    return obj.__class__.__module__ == \"builtins\"", "def is_builtin_class_instance(obj):\n    return obj.__class__.__module__ == \"builtins\" and not isinstance(obj, GengyList)", "C11.R2")
 M("C11", "twin-relabel-kw-flag", TU, "                c,\n                g,\n                isinstance(c, list),\n            )", "                c,\n                g,\n                is_list=isinstance(c, list),\n            )", "", expect="silent")
 M("C11", "twin-index-extend-copy", TU, "                types_this_way[k].extend(v)", "                types_this_way[k].extend(list(v))", "", expect="silent")
+
+# ------------------------------------------------------------------------------------- C06
+M("C06", "ge-crossover-wrong-halves", GE, "        c2 = parent2.dna[:rindex] + parent1.dna[rindex:]", "        c2 = parent1.dna[rindex:] + parent2.dna[:rindex]", "C06.R1")
+M("C06", "stack-crossover-different-cut", STK, "        c2 = parent2.dna[:rindex] + parent1.dna[rindex:]", "        c2 = parent2.dna[: rindex + 1] + parent1.dna[rindex:]", "C06.R1")
+M("C06", "ge-crossover-same-parent", GE, "        c2 = parent2.dna[:rindex] + parent1.dna[rindex:]", "        c2 = parent1.dna[:rindex] + parent2.dna[rindex:]", "C06.R1")
+M("C06", "sge-crossover-other-key", SGE, "                c1[k] = deepcopy(parent1.dna[k])\n                c2[k] = deepcopy(parent2.dna[k])", "                c1[k] = deepcopy(parent1.dna[INFRASTRUCTURE_KEY])\n                c2[k] = deepcopy(parent2.dna[k])", "C06.R2")
+M("C06", "sge-crossover-mask-ignored", SGE, "            else:\n                c1[k] = deepcopy(parent2.dna[k])\n                c2[k] = deepcopy(parent1.dna[k])", "            else:\n                c1[k] = deepcopy(parent1.dna[k])\n                c2[k] = deepcopy(parent2.dna[k])", "C06.R2")
+M("C06", "dsge-crossover-both-from-p1", DSGE, "                c1[k] = deepcopy(parent1.dna.get(k, []))\n                c2[k] = deepcopy(parent2.dna.get(k, []))", "                c1[k] = deepcopy(parent1.dna.get(k, []))\n                c2[k] = deepcopy(parent1.dna.get(k, []))", "C06.R2")
+M("C06", "ge-mutate-two-genes", GE, "        clone[rindex] = random.randint(0, sys.maxsize)\n", "        clone[rindex] = random.randint(0, sys.maxsize)\n        clone[rindex - 1] = random.randint(0, sys.maxsize)\n", "C06.R3")
+M("C06", "stack-mutate-appends", STK, "        clone[rindex] = random.randint(0, 10000)\n", "        clone[rindex] = random.randint(0, 10000)\n        clone.append(random.randint(0, 10000))\n", "C06.R3")
+M("C06", "sge-mutate-index-range", SGE, "rindex = random.randint(0, len(genotype.dna[rkey]) - 1)", "rindex = random.randint(0, len(genotype.dna[rkey]))", "C06.R3")
+M("C06", "dsge-mutate-grows", DSGE, "            if genotype.dna[rkey]:\n                rindex = random.randint(0, len(genotype.dna[rkey]) - 1)\n                dna[rkey][rindex] = random.randint(0, sys.maxsize)",
+  "            rindex = random.randint(0, max(len(genotype.dna[rkey]) - 1, 0))\n            if not dna[rkey]:\n                dna[rkey].append(0)\n            dna[rkey][rindex] = random.randint(0, sys.maxsize)", "C06.R3")
+M("C06", "new-constant-guard", TB, '    if node_to_mutate == 0 or not hasattr(i, "gengy_synthesis_context"):', '    if node_to_mutate == 0 or not hasattr(i, "gengy_synth_context"):', "C06.R4")
+M("C06", "twin-ge-crossover-names", GE, "        c1 = parent1.dna[:rindex] + parent2.dna[rindex:]\n        c2 = parent2.dna[:rindex] + parent1.dna[rindex:]\n        return (Genotype(c1), Genotype(c2))",
+  "        first = parent1.dna[:rindex] + parent2.dna[rindex:]\n        second = parent2.dna[:rindex] + parent1.dna[rindex:]\n        return (Genotype(first), Genotype(second))", "", expect="silent")
